@@ -651,6 +651,20 @@ def emission_sequences(ctx, fn):
                             fs.append(sep)
                         fs.append(desc(e_))
                     out.append(fs)
+            elif c and c.endswith("::write_fmt") and len(t["args"]) == 2:
+                # `write!(out, "{}{}", a, b)`: the pieces are appended to `out` in order, like push_str calls
+                fp = format_parts(du, du.val_operand(t["args"][1]))
+                if fp is None:
+                    seq.append("other")
+                else:
+                    parts, args = fp
+                    ai = 0
+                    for prt in parts:
+                        if prt[0] == "lit":
+                            seq.append("const:" + prt[1])
+                        else:
+                            seq.append(desc(args[ai][1]) if ai < len(args) else "other")
+                            ai += 1
             elif c in FORMAT_FNS:
                 fp = format_parts(du, du.val_call(t, 0, bid))
                 if fp is not None:
